@@ -2,7 +2,8 @@ import os
 
 P = dict(
     harness='c14_diagnostics.cpp',
-    variants=['asan'],
+    variants=['asan', 'memcheck'],
+    memcheck_stride=dict(quick=100, thorough=40),
     level='exploration',
     technique='runtime monitoring: ASan/UBSan build with operands in exact-size heap blocks, independent first-difference / rendering oracle for every *Failure class (direct and through the macros), '
               'guarded canary + termination/length monitor on the leak detector\'s 4096-byte text buffer after every operation of generated misuse/leak/report histories, '
